@@ -515,7 +515,11 @@ func NewFECase(g *Gen, id int) *Case {
 				continue
 			}
 			if g.R.P(20) {
+				orig := s
 				s = Pick(g.R, []string{" ", "\t", "\n", "\r\n", " ", "\u00a0", "\u2003 ", "\u3000", "\u200b", "\u0085"}) + s + Pick(g.R, []string{" ", "\t", "\n", "\r", "", "\u00a0\t", "\u2028", "\u200b", "\xc2"})
+				if strings.TrimSpace(s) != orig {
+					comparable = false // (a look-alike that is not white space stays: another record)
+				}
 			}
 			k := keys[kv.K]
 			if strings.ContainsRune(s, 0) || !strings.HasPrefix(k, "ZV_") {
